@@ -252,6 +252,21 @@ func checkC04(R *Run) {
 			}
 		}
 	}
+	// the gate spelled out in the login sequence itself: the comparison that Authenticate consists of (auth-shape)
+	var inlCmp, inlGet *ssa.Call
+	if authCall == nil && len(cut) == 0 {
+		factEdgesImplied(fn, func(e Edge, f Fact) {
+			if cmp, get, ok := P.inlineAuthFact(f); ok {
+				inlCmp, inlGet = cmp, get
+				if f.Holds {
+					cut[e] = true
+				}
+			}
+		})
+		if inlCmp != nil {
+			authCall = inlCmp
+		}
+	}
 	if authCall == nil {
 		R.bad("login-gate", fname(fn)+": Authenticate", P.pos(fn.Pos()), "the login sequence no longer branches on ClientConn.Authenticate: the login gate is gone or moved")
 		return
@@ -375,6 +390,10 @@ func checkC04(R *Run) {
 				R.check(!inLoop(ci.Block()), "login-once", fmt.Sprintf("%s: Authenticate #%d", fname(fn), nAuth), P.ipos(ci), "outside any loop", "the credentials check sits in a loop: after a refused login the same connection is read again and a later transaction can log it in")
 			}
 		}
+		if nAuth == 0 && inlCmp != nil && inlCmp.Parent() == fn {
+			nAuth++
+			R.check(!inLoop(inlCmp.Block()), "login-once", fmt.Sprintf("%s: Authenticate #%d", fname(fn), nAuth), P.ipos(inlCmp), "outside any loop", "the credentials check sits in a loop: after a refused login the same connection is read again and a later transaction can log it in")
+		}
 		if nAuth == 0 {
 			R.und("login-once", fname(fn), P.pos(fn.Pos()), "no Authenticate call found in the login sequence")
 		}
@@ -382,8 +401,12 @@ func checkC04(R *Run) {
 
 	// ---- login-args
 	{
-		loginArg := authCall.Call.Args[1]
-		pwArg := authCall.Call.Args[2]
+		var loginArg, pwArg ssa.Value
+		if inlCmp != nil {
+			loginArg, pwArg = inlGet.Call.Args[0], inlCmp.Call.Args[1]
+		} else {
+			loginArg, pwArg = authCall.Call.Args[1], authCall.Call.Args[2]
+		}
 		okPw := P.requestFieldOf(resolveLocal(pwArg)) == "FieldUserPassword"
 		R.check(okPw, "login-args", fname(fn)+": password argument", P.ipos(authCall), "password field of the login transaction", "the password checked is not the login transaction's password field")
 		var leaves []string
@@ -691,10 +714,80 @@ func sameLocalValue(a, b ssa.Value) bool {
 	}
 	a1, f1, l1 := cellOfRead(a)
 	a2, f2, l2 := cellOfRead(b)
+	// a struct variable that is a copy of another one (a by-value parameter of an expanded helper) and whose field is
+	// not written afterwards: reading its field is reading the original's field where the copy was made
+	viaCopy := func(al *ssa.Alloc, f int, ld *ssa.UnOp) (*ssa.Alloc, *ssa.UnOp) {
+		for d := 0; d < 4 && al != nil && f >= 0; d++ {
+			var whole *ssa.UnOp
+			n, ok := 0, true
+			for _, r := range *al.Referrers() {
+				switch x := r.(type) {
+				case *ssa.Store:
+					if x.Addr != ssa.Value(al) {
+						ok = false
+						break
+					}
+					n++
+					if u, isU := x.Val.(*ssa.UnOp); isU && u.Op == token.MUL {
+						if _, isA := u.X.(*ssa.Alloc); isA {
+							whole = u
+						}
+					}
+				case *ssa.FieldAddr:
+					if x.Field != f {
+						continue
+					}
+					for _, rr := range *x.Referrers() {
+						switch rr.(type) {
+						case *ssa.UnOp, *ssa.DebugRef:
+						default:
+							ok = false
+						}
+					}
+				case *ssa.UnOp, *ssa.DebugRef:
+				default:
+					ok = false
+				}
+			}
+			if !ok || n != 1 || whole == nil {
+				break
+			}
+			al, ld = whole.X.(*ssa.Alloc), whole
+		}
+		return al, ld
+	}
+	if a1 != nil && a2 != nil && a1 != a2 && f1 == f2 {
+		a1, l1 = viaCopy(a1, f1, l1)
+		a2, l2 = viaCopy(a2, f2, l2)
+	}
 	if a1 == nil || a1 != a2 || f1 != f2 {
 		return false
 	}
-	// every write to the variable (whole, or to that field) dominates both reads
+	// no write to the variable (whole, or to that field) can happen between the two reads: either it dominates both,
+	// or it cannot follow the first read and precede the second
+	if instrDominates(l2, l1) {
+		l1, l2 = l2, l1
+	}
+	if l1 != l2 && !instrDominates(l1, l2) {
+		return false
+	}
+	mayFollow := func(x, y ssa.Instruction) bool { // y can be executed after x
+		if x.Block() == y.Block() && instrIndex(x) < instrIndex(y) {
+			return true
+		}
+		for _, sc := range x.Block().Succs {
+			if reachableFrom(sc, nil)[y.Block()] {
+				return true
+			}
+		}
+		return false
+	}
+	instrDominates := func(st, rd ssa.Instruction) bool {
+		if instrDominates(st, rd) {
+			return true
+		}
+		return !(mayFollow(l1, st) && mayFollow(st, l2))
+	}
 	ok := true
 	for _, r := range *a1.Referrers() {
 		switch x := r.(type) {
@@ -723,4 +816,33 @@ func sameLocalValue(a, b ssa.Value) bool {
 		}
 	}
 	return ok
+}
+
+// inlineAuthFact: the fact is `bcrypt.CompareHashAndPassword(hash, pw) == nil` with hash the Password of the account
+// that AccountManager.Get returned — what Authenticate consists of (auth-shape), written out where it is used.
+func (P *Prog) inlineAuthFact(f Fact) (cmp, get *ssa.Call, ok bool) {
+	if f.Kind != "nil" {
+		return nil, nil, false
+	}
+	c, isCall := stripConv(f.V).(*ssa.Call)
+	if !isCall || calleeName(&c.Call) != "golang.org/x/crypto/bcrypt.CompareHashAndPassword" || len(c.Call.Args) != 2 {
+		return nil, nil, false
+	}
+	P.reaches(c.Call.Args[0], func(x ssa.Value) bool {
+		fa, isFA := x.(*ssa.FieldAddr)
+		if !isFA {
+			return false
+		}
+		if fl, _ := fieldOf(fa); fl != "hotline.Account.Password" {
+			return false
+		}
+		if g := callValue(stripConv(resolveLocal(stripConv(fa.X)))); g != nil && calleeName(&g.Call) == "(hotline.AccountManager).Get" {
+			get = g
+		}
+		return true
+	})
+	if get == nil {
+		return nil, nil, false
+	}
+	return c, get, true
 }
